@@ -390,21 +390,28 @@ pub struct Panic {
 
 impl Panic {
     /// `src/...:line` relative to the repository
+    /// A root-cause label that survives unrelated edits of the file: `path[message]` without the
+    /// line number (lines shift when code is inserted above).
     pub fn site(&self) -> String {
         let l = &self.location;
-        if l.starts_with("/repo/") {
-            l["/repo/".len()..].to_string()
-        } else if l.starts_with("src/") {
-            l.clone()
-        } else if let Some(i) = l.find("/library/") {
-            // a panic raised inside the standard library: keep the library path and the message
-            format!("std:{}[{}]", &l[i + "/library/".len()..], self.message.replace(' ', "_"))
-        } else if let Some(i) = l.find("/registry/src/") {
-            let rest = &l[i + "/registry/src/".len()..];
-            format!("dep:{}", rest.splitn(2, '/').nth(1).unwrap_or(rest))
+        let file = l.rsplitn(2, ':').nth(1).unwrap_or(l);
+        let msg: String = self.message.chars().take(70).collect::<String>().replace(' ', "_");
+        if let Some(f) = file.strip_prefix("/repo/") {
+            format!("{f}[{msg}]")
+        } else if file.starts_with("src/") {
+            format!("{file}[{msg}]")
+        } else if let Some(i) = file.find("/library/") {
+            format!("std:{}[{msg}]", &file[i + "/library/".len()..])
+        } else if let Some(i) = file.find("/registry/src/") {
+            let rest = &file[i + "/registry/src/".len()..];
+            format!("dep:{}[{msg}]", rest.splitn(2, '/').nth(1).unwrap_or(rest))
         } else {
-            l.clone()
+            format!("{file}[{msg}]")
         }
+    }
+    /// file:line, for humans
+    pub fn at(&self) -> String {
+        self.location.clone()
     }
 }
 
